@@ -815,6 +815,16 @@ func leadHolds(lead string, op opT, w *world, prevDefault string) bool {
 	case "default_rp_dangling_after_rename":
 		return op.A == "updaterp" && op.NN != noName && op.NN != op.RP && !op.MK && prevDefault == cc.rp[op.RP] &&
 			di.DefaultRetentionPolicy == cc.rp[op.RP] && di.RetentionPolicy(cc.rp[op.RP]) == nil && di.RetentionPolicy(cc.rp[op.NN]) != nil
+	case "rp_renamed_to_empty_name":
+		if op.A != "updaterp" || op.NN != "" {
+			return false
+		}
+		for _, r := range di.RetentionPolicies {
+			if r.Name == "" {
+				return true
+			}
+		}
+		return false
 	case "shard_group_duration_default_at_180d":
 		name := cc.rp[op.RP]
 		if op.A == "createdbrp" && op.RP == "" {
